@@ -124,6 +124,7 @@ def run_case(case):
         inst, meta = W.random_instance(rng, cls, small=True)
     kw = inst["kw"]
     kw.pop("solution_weights_superset", None)
+    kw.pop("trusted_edges_for_safety_percentile", None)     # a user assumption ("these edges appear in an optimal solution"), not an optimisation switch: a wrong assumption may change the optimum
     if cls in W.ERR and kw.get("k") is None:
         kw["k"] = 2
     user_oo = {}
